@@ -36,13 +36,16 @@ CHECKS = {
         design='Part B C02'),
     'C03': dict(
         text='Theorems: frame — the annotation result of a node depends only on the blocks stored under its own finite key set '
-             '(name, Class:prop, Class::sig, Struct.field, invoker), so a block can never affect an unrelated element (all block maps, all '
-             'nodes); the key sets of distinct element kinds are disjoint; per annotation/tag mapping theorems (skip, Since, Deprecated, '
-             'Stability, attributes, constructor/method roles, set/get-property, finish/sync/async, emitter, ref/unref/copy/free/'
-             'get-/set-value-func, value) give the GIR attribute and target named in the statement; rename-to fold keeps shadows/'
-             'shadowed-by mutually consistent for any number of competing annotations; a vfunc without its own block inherits exactly '
-             'its invoker\'s. Validated only: whole-namespace scans with near-colliding names (presence on target, absence elsewhere).',
-        note='Modelled not verified: the C lexer; the comment parser is C10/C11\'s subject (blocks are inputs here).',
+             '(name, Class:prop, Class::sig, Struct.field, invoker), so a block can never affect an unrelated element (all block maps, '
+             'all nodes, both virtual-method phases); key sets of distinct targets are disjoint; one mapping theorem per '
+             'annotation/tag (skip, Since (`_partial`: kinds that write a version), Deprecated, Stability, attributes, '
+             'constructor/method roles, set/get-property, finish/sync/async, emitter, ref/unref/copy/free/get-/set-value-func, value); '
+             'rename-to: shadows/shadowed-by symmetric on the AST for any number of competing annotations, written pair consistent '
+             'for chains in either order (`_partial`: excludes only self-rename, witnessed); an inferred getter is the one the '
+             'property names; a vfunc without its own block inherits exactly its invoker\'s. Source statements of the rename and '
+             'accessor functions and the writer guards are pinned per run. Validated only: whole-namespace scans with near-colliding '
+             'names (presence on target, absence elsewhere by rescan), emitter validation.',
+        note='Modelled not verified: the C lexer; the comment parser is C10/C11\'s subject (blocks are inputs here); IntrospectablePass emitter validation (judged on the real GIR only).',
         design='Part B C03'),
     'C04': dict(
         text='Theorems (all strings / all namespaces): prefix stripping (current namespace wins over includes, first matching prefix, '
@@ -100,12 +103,14 @@ CHECKS = {
         note='Modelled not verified: gcc as the ABI oracle; the hand-written GLib declarations; libffi type table (measured).',
         design='Part B C08'),
     'C09': dict(
-        text='Theorems: for all section counts and all in-range indices the accessor offset arithmetic of giobjectinfo.c/giinterfaceinfo.c/'
-             'gistructinfo.c/giunioninfo.c/gienuminfo.c/gicallableinfo.c equals the layout position of the i-th member of that section '
-             '(incl. odd interface counts, fields with embedded callbacks); attribute lookup returns the first blob of the node for every '
-             'choice bsearch may make and iteration yields exactly the node\'s attributes in table order; type decoding agrees with the '
-             'C06 decoder. Validated only: a C walker over the public API and g-ir-generate\'s XML compared with the source GIR.',
-        note='Modelled not verified: girwriter.c (typelib->GIR text), bsearch (any index with equal key), the hand-written GLib declarations.',
+        text='Theorems: for all section counts, sizes and embedded-callback positions and all in-range indices the accessor offset '
+             'arithmetic of giobjectinfo.c/giinterfaceinfo.c/gistructinfo.c/giunioninfo.c/gienuminfo.c/gicallableinfo.c equals the '
+             'sequential-layout position of the i-th member of that section (blob sizes from the table measured each run); attribute '
+             'find-first and iteration return exactly the node\'s attributes for every choice bsearch may make on the sorted table '
+             '(glibc bsearch is one); simple/complex type word decoding; the deprecated accessor reads the stored flag for every '
+             'entry kind (decide over the switch of g_base_info_is_deprecated regenerated from the source each run). '
+             'Validated only: a C walker over the public API and g-ir-generate\'s XML, both compared with the source GIR.',
+        note='Modelled not verified: girwriter.c (typelib->GIR text), memory safety, the hand-written GLib declarations.',
         design='Part B C09'),
     'C10': dict(
         text='Theorems: the annotation tokenizer (_parse_annotations/_parse_annotation/option parsers) reads back exactly what the '
@@ -154,13 +159,18 @@ CHECKS = {
         note='Modelled not verified: cmph/BDZ (h is a parameter with a per-run checked assumption); the hand-written GLib declarations.',
         design='Part B C14'),
     'C15': dict(
-        text='Theorems over tables re-extracted every run from girwriter.py (what it can emit per element) and girparser.c (what each '
-             'parser state handles or passes through): every element the writer emits in a context is handled or explicitly passed '
-             'through; every attribute/enumerated value the writer can produce is recognised by the C side (`_partial` + witnesses '
-             'where the unchanged code differs); the passthrough depth counter returns to the enclosing state after any well-nested '
-             'subtree, so a non-introspectable element removes exactly its own subtree. The end-to-end claim is VALIDATED on the real '
-             'pair: scanner pipeline output -> real g-ir-compiler -> decoded typelib compared with the GIR.',
-        note='Modelled not verified: GMarkup; the node->blob mapping (C06).',
+        text='Theorems over tables re-extracted every run from girwriter.py (what it can emit per element: attributes, children, '
+             'enumerated values) and girparser.c (what each of the 36 parser states handles, fetches or passes through): the 40 '
+             'writer contexts are an inductive invariant of walking writer output through the parser table (C15_walk/'
+             'C15_contexts_closed/C15_handlers); every element the writer emits in a context is handled or passed through, every '
+             'attribute written is fetched, every enumerated value is recognised and in docs/gir-1.2.rnc — each as a `_partial` '
+             'theorem whose exceptions are exactly the witnessed offences (`_counterexample` theorems; known findings); for all '
+             'contexts and all well-nested bodies the passthrough depth counter returns to the enclosing state, so a skipped '
+             '(introspectable="0") element removes exactly its own subtree and is inert (C15_passthrough_balanced/'
+             '_skipped_subtree_invisible/_inert). The model state machine is compared with the real start/end element handlers on '
+             'every GIR and mutant (cdrivers/c15_states.c). The end-to-end claim (accepted without message, validates, same flags, '
+             'hidden elements absent) is VALIDATED on the real pair: scanner pipeline output -> real g-ir-compiler -> walker.',
+        note='Modelled not verified: GMarkup; the node->blob mapping (C06). The tie between number-coded and string tables is checked by the compiled driver each run (kernel evaluation of string literals is too slow), only first rows are pinned in the kernel.',
         design='Part B C15'),
     'C16': dict(
         text='Theorems: every order the writer imposes (sorted(...), nscmp) is a function of the set of siblings — invariant under every '
@@ -213,7 +223,7 @@ CHECKS = {
 }
 
 # properties whose check currently passes on the unchanged tree and is registered
-CLAIMED = ['C01', 'C02', 'C04', 'C05', 'C06', 'C07', 'C08', 'C11', 'C12', 'C13', 'C14', 'C16', 'C17', 'C18', 'C19', 'C20']
+CLAIMED = ['C01', 'C02', 'C03', 'C04', 'C05', 'C06', 'C07', 'C08', 'C09', 'C11', 'C12', 'C13', 'C14', 'C15', 'C16', 'C17', 'C18', 'C19', 'C20']
 
 PENDING = {
 }
